@@ -202,6 +202,30 @@ def vary_init_false(HG, g, x):
     return ("I", x[1], fs)
 
 
+FALSY_ANY = [("N",), ("i", 0), ("s", ""), ("b", False), ("f", 0), ("l", []), ("d", [])]
+
+
+def vary_falsy(chk, HG, g, x):
+    """attributes whose default is an empty builtin collection built by the builtin itself: let them hold, now and then,
+    a conforming value that is FALSY WITHOUT BEING THE DEFAULT (None under Optional, 0 / "" / False / an empty collection of
+    another class under Any or no annotation) -- `omit_if_default` is about `==` to the default, not about truthiness"""
+    if x[0] != "I":
+        return x
+    c = g["classes"][x[1]]
+    fs = []
+    for f, (n, v) in zip(c["fields"], x[2]):
+        if H.empty_factory(f["dflt"]) is not None and HG.rng.random() < 0.45:
+            t = strip_wraps(f["ty"])
+            if t is None or t == "any":
+                v = HG.rng.choice([u for u in FALSY_ANY if u[0] != f["dflt"][1][0]])
+            elif t[0] == "opt":
+                v = ("N",)
+            chk.note("falsy-but-not-default value under an empty-collection factory" if v != f["dflt"][1] else
+                     "value == empty-collection factory default")
+        fs.append((n, v))
+    return ("I", x[1], fs)
+
+
 def check_quotes(chk, drv, g, corr_fail):
     for ci, c in enumerate(g["classes"]):
         hc = H.eff_hc(g, ci)
@@ -251,7 +275,7 @@ def one_world(chk, drv, HG, g, stream, corr_fail, n_inst, only_last=False):
             if clean and mc != "1":
                 corr_fail.append(({"check": "scope", "stream": stream, "gworld": g, "class": ci}, "consistent", "model says " + mc))
         for _ in range(n_inst):
-            x0 = vary_init_false(HG, g, HG.instance(g, ci))
+            x0 = vary_falsy(chk, HG, g, vary_init_false(HG, g, HG.instance(g, ci)))
             try:
                 xv = S.R.val(x0)
                 x = S.R.abs(xv)
@@ -429,6 +453,52 @@ def witnesses(chk, drv, HG, corr_fail):
             print(f"NOTE C09: known finding {fid} no longer reproduces on its witnesses (stale entry?)")
 
 
+def falsy_witnesses(chk, drv, HG, corr_fail):
+    """the values of the Lean witness C09_truthiness_guard_witness (falsy, yet not `==` the empty-collection default), replayed
+    on the implementation on every run: attrs class and dataclass, `factory=list` / `factory=dict` written as the builtin,
+    omit_if_default per hook, per attribute and converter-wide, both templates.  Each must be emitted and restored."""
+    n = 0
+    for kind in ("attrs", "dc"):
+        for dflt, others in ((("l", []), [("N",), ("i", 0), ("f", 0), ("b", False), ("s", ""), ("d", [])]),
+                             (("d", []), [("N",), ("i", 0), ("b", False), ("s", ""), ("l", [])])):
+            for route in ("hook-flag", "override", "converter"):
+                for detailed in (True, False):
+                    fields = [fld("t", "str"), fld("x", "any", dflt=("fac", dflt)),
+                              fld("o", ("opt", ("list", "int")) if dflt[0] == "l" else ("opt", ("dict", "str", "int")), dflt=("fac", dflt))]
+                    hc = dict(H.neutral_hc(), detailed=detailed)
+                    conv = None
+                    if route == "hook-flag":
+                        hc["oid"] = True
+                    elif route == "override":
+                        hc["ovs"] = {"x": ovr(oid=True), "o": ovr(oid=True)}
+                    else:
+                        conv = {"oid": True, "forbid": False, "detailed": detailed, "tovs": []}
+                    g = {"classes": [{"kind": kind, "frozen": False, "slots": True, "fields": fields, "hc": hc}], "enums": [],
+                         "detailed": detailed, "conv": conv}
+                    S = H.HookSession(drv, g)
+                    if S.gen_error is not None:
+                        chk.violation("C09 oracle: hook generation failed on a witness: " + repr(S.gen_error)[:200],
+                                      {"check": "generation", "gworld": g})
+                        continue
+                    ty = ("cls", 0)
+                    for v in others + [dflt]:
+                        x = ("I", 0, [("t", ("s", "a")), ("x", v), ("o", ("N",) if v != dflt else dflt)])
+                        xv = S.R.val(x)
+                        ru = S.impl_un(ty, xv)
+                        rs = S.impl_st(ty, ru[-1]) if ru[0] == "ok" else None
+                        case = {"stream": "falsy-witness", "gworld": g, "class": 0, "ty": ty, "x": x, "f24_classes": [], "f25_classes": []}
+                        n += 1
+                        chk.count("falsy-witness" + H.gworld_sx(g) + terms.canon_sx(x), nontrivial=True)
+                        chk.note("stream:falsy-witness")
+                        for what, facts in judge(S, g, 0, ty, xv, ru, rs):
+                            chk.violation("C09 oracle: " + what + f" [falsy-but-not-default witness, {kind}, {route}, "
+                                          f"{'detailed' if detailed else 'fast'}]", dict(case, **facts))
+                        a, b = H.impl_reply(S, ru), H.model_reply(S.model_un(ty, x))
+                        if b[0] != "unmodelled" and a != b:
+                            corr_fail.append((dict(case, op="HOOKUN"), a, b))
+    chk.extra["falsy_witnesses_replayed"] = n
+
+
 def probe_omitted_unstructurable(chk):
     """generation never fails (implementation only): a key / attribute that is omitted by `override(omit=True)` may have
     a type the converter has no structure hook for (a Callable, a plain class) -- that is what people omit.  Both
@@ -508,6 +578,7 @@ def run(chk: framework.Check):
     quick = chk.tier == "quick"
     corr_fail = []
     witnesses(chk, drv, HG, corr_fail)
+    falsy_witnesses(chk, drv, HG, corr_fail)
     probe_omitted_unstructurable(chk)
     n_hook, n_conv, n_any, n_deep, n_reg = (260, 110, 120, 80, 40) if quick else (2600, 1100, 1200, 800, 400)
     for _ in range(n_hook):
